@@ -233,13 +233,15 @@ static void do_rollback(struct lp_ctx *lp, array_count_t past_i)
  */
 static inline array_count_t match_straggler_msg(const struct process_ctx *proc_p, const struct lp_msg *s_msg)
 {
-	array_count_t i = array_count(proc_p->p_msgs) - 1;
+	// the scan starts at the last entry: the straggler's own flags are read again by each comparison, and a cancellation that
+	// lands on it meanwhile orders it before everything with the same timestamp, LP_INIT included, which nothing may precede
+	array_count_t i = array_count(proc_p->p_msgs);
 	const struct lp_msg *msg;
 	do {
 		if(!i)
 			return 0;
 		msg = array_get_at(proc_p->p_msgs, --i);
-	} while(is_msg_sent(msg) || msg_is_before(s_msg, msg));
+	} while(is_msg_sent(msg) || (msg->m_type != LP_INIT && msg_is_before(s_msg, msg)));
 	return i + 1;
 }
 
